@@ -652,7 +652,8 @@ func (p *printer) lit(w *ast.Lit) {
 func (p *printer) quote(w *ast.Quote) {
 	switch w.Tok {
 	case `\`:
-		p.w.Write([]byte{'\\', w.Value[0].(*ast.Lit).Value[0]})
+		p.w.WriteByte('\\')
+		p.word(w.Value)
 	case `'`, `"`:
 		p.w.WriteString(w.Tok)
 		p.word(w.Value)
